@@ -257,12 +257,17 @@ func (p *Posix) doesBucketAndObjectExist(bucket, object string) error {
 		return fmt.Errorf("stat bucket: %w", err)
 	}
 
-	_, err = os.Stat(filepath.Join(bucket, object))
+	fi, err := os.Stat(filepath.Join(bucket, object))
 	if errors.Is(err, fs.ErrNotExist) || errors.Is(err, syscall.ENOTDIR) {
 		return s3err.GetAPIError(s3err.ErrNoSuchKey)
 	}
 	if err != nil {
 		return fmt.Errorf("stat object: %w", err)
+	}
+	// a key ending in "/" names a directory object, any other key a file
+	// object: the file system resolves both spellings to the same path
+	if strings.HasSuffix(object, "/") != fi.IsDir() {
+		return s3err.GetAPIError(s3err.ErrNoSuchKey)
 	}
 
 	return nil
@@ -4566,6 +4571,10 @@ func (p *Posix) GetObjectTagging(_ context.Context, bucket, object string) (map[
 
 func (p *Posix) getAttrTags(bucket, object string) (map[string]string, error) {
 	tags := make(map[string]string)
+	if fi, err := os.Stat(filepath.Join(bucket, object)); err == nil && strings.HasSuffix(object, "/") != fi.IsDir() {
+		// "key/" is not the file object "key" (and "key" not the directory object "key/")
+		return nil, s3err.GetAPIError(s3err.ErrNoSuchKey)
+	}
 	b, err := p.meta.RetrieveAttribute(nil, bucket, object, tagHdr)
 	if errors.Is(err, fs.ErrNotExist) || errors.Is(err, syscall.ENOTDIR) {
 		return nil, s3err.GetAPIError(s3err.ErrNoSuchKey)
@@ -4592,6 +4601,11 @@ func (p *Posix) PutObjectTagging(_ context.Context, bucket, object string, tags 
 	}
 	if err != nil {
 		return fmt.Errorf("stat bucket: %w", err)
+	}
+
+	if fi, err := os.Stat(filepath.Join(bucket, object)); err == nil && strings.HasSuffix(object, "/") != fi.IsDir() {
+		// "key/" is not the file object "key" (and "key" not the directory object "key/")
+		return s3err.GetAPIError(s3err.ErrNoSuchKey)
 	}
 
 	if tags == nil {
